@@ -1,5 +1,7 @@
 import MlModel.Lemmas.PrefetchReplay
 import MlModel.Lemmas.PrefetchGen
+import MlModel.Lemmas.PrefetchLive
+import MlModel.Lemmas.PrefetchVariant
 import MlModel.Properties.C05
 /-!
 # C15 — the prefetching generator protocol delivers the generator faithfully
@@ -50,10 +52,11 @@ theorem C15_faithful_prefix (h : Reachable (init p [.client g b]) c) (ht : c.ths
 FULL STATEMENT (C15_faithful): for every schedule the client's loop ENDS, having yielded exactly the
 generator's elements in order, each once, on exactly one end marker carrying the return value.
 
-Proved below (`_partial`): everything except "the loop ends under every schedule" (termination /
-deadlock-freedom of the embedded queue LTS — the liveness half of C04 is not yet a Lean theorem).
-That part is decided on the real code by the scheduler-driven oracle (a run that cannot continue is
-reported with its schedule) and on the model by exhaustive exploration of small configurations.
+Proved: the safety half below (`C15_faithful_partial`), and — further down — the liveness half:
+`C15_no_deadlock` (an execution that cannot be extended has the client's loop ended), `C15_terminates` (no
+execution is infinite), hence the full statement `C15_faithful` / `C15_faithful_run`.
+(The real code is additionally driven by the scheduler — a run that cannot continue is reported with its
+schedule — and small configurations of the model are explored exhaustively.)
 -/
 
 /-- **Faithful delivery** (safety half): whenever the client's loop has ended on a generator that does
@@ -86,8 +89,9 @@ theorem C15_faithful_partial {xs : List Nat} (hsrc : g.src = xs.map Item.val)
 
 /-
 FULL STATEMENT (C15_failure): if the generator raises after `p` elements, for every schedule the
-client yields exactly those `p` elements and then raises that exception.  Proved: all of it except that
-the loop ends under every schedule (see above).
+client yields exactly those `p` elements and then raises that exception.  Proved: the safety half below
+(`C15_failure_partial`) and the liveness half (`C15_no_deadlock`, `C15_terminates`), hence the full statement
+`C15_failure` / `C15_failure_run`.
 -/
 
 /-- **Failure delivery** (safety half): if the generator's `next` raises after the values `xs`, then
@@ -114,6 +118,172 @@ theorem C15_failure_partial {xs : List Nat} {rest : List Item} (hsrc : g.src = x
       rw [asItems_eq, hsrc] at hs
       exact ⟨(vals_fail_inj _ _ _ _ hs).symm, by rw [he]⟩
 
+/-! ### Nothing stays blocked: deadlock-freedom of the one-client system
+
+The liveness half.  The queue-level no-lost-wake-up invariant (`C04_no_lost_wakeup`: J1 J2 K1 K2,
+`Lemmas/QueueLive*.lean`) is transferred through the embedding (`Lemmas/QueueLiveView.lean`,
+`Lemmas/PrefetchLive.lean`): the generator queue with the client's current `get_batch` call and the
+prefetch thread's `enqueue_from_iterator` is a `Queue.Cfg` on which `Queue.Live` holds in every reachable
+configuration of the server LTS; together with the discipline of the server-level locks this excludes every
+configuration in which a thread waits for ever. -/
+
+/-- **No deadlock, no request left blocked** (every prefetch size, batch size, generator — failing or
+not —, every schedule): a reachable configuration of the one-client system in which NO thread can take a
+step is final —
+* the client's loop has ended (thread 1 is at `done`),
+* the prefetch thread has been started and has ended (thread 2, `enqueue_from_iterator` returned or raised),
+* the server's own thread (thread 0) is parked in `run_until_shutdown` waiting for a shutdown request
+  (nobody makes one in this configuration; with a `shutdown` request it ends too — see the exploration
+  stage of the check).
+Equivalently: in every reachable configuration in which the client has not ended, some thread is enabled. -/
+theorem C15_no_deadlock (h : Reachable (init p [.client g b]) c) (hdead : enabled c = []) :
+    ∃ tm tc tp, c.ths = [tm, tc, tp] ∧ tc.pc = .done ∧ tp.pc = .done ∧
+      tm.pc = .mnWake ∧ c.sh.shutNotified.contains 0 = false := by
+  obtain ⟨tm, tc, tp, h1, h2, h3, h4, h5⟩ := one_dead (rlinv_reachable h) (enabled_nil hdead)
+  exact ⟨tm, tc, tp, h1, h4, h5, h2, h3⟩
+
+/-- the contrapositive, as a progress statement: as long as the client's loop has not ended, some thread
+can take a step -/
+theorem C15_progress (h : Reachable (init p [.client g b]) c) (ht : c.ths[1]? = some tc) (hnd : tc.pc ≠ .done) :
+    enabled c ≠ [] := by
+  intro hdead
+  obtain ⟨tm, tc', tp, h1, h2, -⟩ := C15_no_deadlock h hdead
+  rw [h1] at ht
+  simp only [List.getElem?_cons_succ, List.getElem?_cons_zero, Option.some.injEq] at ht
+  subst ht
+  exact hnd h2
+
+/-- **The no-lost-wake-up invariant of the generator queue inside the server** (every reachable
+configuration, every schedule): on the queue-level configuration formed by the generator queue, the client's
+current `get_batch` call and the prefetch thread's `enqueue_from_iterator` (`view`), J1 ∧ J2 ∧ K1 ∧ K2 of
+C04 hold: a request parked in `get_batch` while the queue is not empty has a notified / active consumer or
+a producer owing `notify`; parked after the end of enqueueing it has a pending `notify_all`; a parked prefetch
+thread has room coming (a consumer owing `notify cond2`) or a pending `notify_all`. -/
+theorem C15_no_lost_wakeup (h : Reachable (init p [.client g b]) c) {q0 : Queue.Shared}
+    (hq : c.sh.qs = [q0]) :
+    ∃ tm tc otp, c.ths = tm :: tc :: Option.toList otp ∧
+      Queue.J1 (view b q0 tc otp) ∧ Queue.J2 (view b q0 tc otp) ∧ Queue.K1 (view b q0 tc otp) ∧
+      Queue.K2 (view b q0 tc otp) := by
+  obtain ⟨tm, tc, otp, hths, -, -, -, -, -, hL⟩ := rlinv_reachable h
+  obtain ⟨hv, -⟩ := hL.live q0 hq
+  exact ⟨tm, tc, otp, hths, hv.j1, hv.j2, hv.k1, hv.k2⟩
+
+/-! ### Termination: a measure that decreases on every step -/
+
+/-- **Variant** (every prefetch size, batch size, generator, every schedule): `termMeasure b c` — the pair
+(one-time events still to come, 3 · `Queue.Phi` of the queue-level view + the reply's way back + the server
+thread's way to its next wait; `Lemmas/PrefetchVariant.lean`) in lexicographic order — strictly decreases on
+**every** step of **every** thread of the one-client system.  The queue part is `C04_variant`'s measure,
+transferred through the embedding. -/
+theorem C15_variant (h : Reachable (init p [.client g b]) c) {tid : Queue.Tid} {lbl : String} {c' : Cfg}
+    (hs : step c tid = some (lbl, c')) : MLt (termMeasure b c') (termMeasure b c) :=
+  (var_step (rlinv_reachable h) (vxc_reachable h) hs).2
+
+/-- the order of the variant is well-founded (lexicographic order on ℕ × ℕ) -/
+theorem C15_variant_wf : WellFounded MLt := mlt_wf
+
+/-- **No infinite execution**: there is no infinite sequence of steps from a reachable configuration —
+whatever the scheduler does, without any fairness assumption.  With `C15_no_deadlock`: EVERY schedule of the
+one-client system, continued as long as some thread is enabled, stops after finitely many steps in a
+configuration in which the client's loop and the prefetch thread have ended. -/
+theorem C15_terminates {f : Nat → Cfg} (h0 : Reachable (init p [.client g b]) (f 0)) : ¬ IsRun f :=
+  fun hrun => no_infinite_run h0 hrun
+
+/-
+`C15_faithful` / `C15_failure`: the `_partial` of the two safety theorems above is discharged.
+"For every schedule the client's loop ENDS, having yielded exactly …" = (a) no execution is infinite
+(`C15_terminates`: a lexicographic measure decreases on every step), (b) an execution that cannot be
+extended has the client's loop ended (`C15_no_deadlock`), (c) an ended loop has yielded exactly the
+generator (`C15_faithful_partial` / `C15_failure_partial`).  The two theorems below are (b) + (c) for every
+reachable configuration without enabled step, i.e. for the last configuration of EVERY maximal execution;
+`C15_faithful_run` packages (a) + (b) + (c) for an arbitrary scheduler.
+-/
+
+/-- **Faithful delivery** (safety + deadlock-freedom): every execution that cannot be extended ends with
+the client's loop ended, having yielded exactly the generator's elements — in order, each once — on a
+`StopIteration` marker carrying exactly the generator's return value, the only marker in all its replies. -/
+theorem C15_faithful {xs : List Nat} (hsrc : g.src = xs.map Item.val)
+    (h : Reachable (init p [.client g b]) c) (hdead : enabled c = []) :
+    ∃ tc, c.ths[1]? = some tc ∧ tc.pc = .done ∧
+      valuesOf tc.yielded = xs ∧ tc.outcome = some (.stop [g.ret]) ∧
+      ∃ ini last, tc.replies = ini ++ [last] ∧ (∀ r ∈ ini, r.marker = none) ∧
+        last.marker = some (.stop [g.ret]) := by
+  obtain ⟨tm, tc, tp, h1, h2, -⟩ := C15_no_deadlock h hdead
+  have ht : c.ths[1]? = some tc := by rw [h1]; rfl
+  exact ⟨tc, ht, h2, C15_faithful_partial hsrc h ht h2⟩
+
+/-- **Failure delivery** (safety + deadlock-freedom): if the generator's `next` raises after the values
+`xs`, every execution that cannot be extended ends with the client's loop ended, having yielded exactly `xs`
+and raised the generator's exception. -/
+theorem C15_failure {xs : List Nat} {rest : List Item} (hsrc : g.src = xs.map Item.val ++ Item.fail :: rest)
+    (h : Reachable (init p [.client g b]) c) (hdead : enabled c = []) :
+    ∃ tc, c.ths[1]? = some tc ∧ tc.pc = .done ∧ valuesOf tc.yielded = xs ∧ tc.outcome = some (.err .value) := by
+  obtain ⟨tm, tc, tp, h1, h2, -⟩ := C15_no_deadlock h hdead
+  have ht : c.ths[1]? = some tc := by rw [h1]; rfl
+  exact ⟨tc, ht, h2, C15_failure_partial hsrc h ht h2⟩
+
+/-- **Every schedule ends**: let `f` be ANY sequence of configurations starting at the initial one that
+follows the LTS as long as some thread is enabled (the scheduler's choices; what `f` does once nothing is
+enabled is irrelevant).  Then there is a moment `n` at which NO thread is enabled any more — the execution
+is finite —, and `f n` is reachable. -/
+theorem C15_run_ends {f : Nat → Cfg} (h0 : f 0 = init p [.client g b])
+    (hmax : ∀ n, enabled (f n) ≠ [] → ∃ tid lbl, step (f n) tid = some (lbl, f (n + 1))) :
+    ∃ n, Reachable (init p [.client g b]) (f n) ∧ enabled (f n) = [] := by
+  -- if no such moment existed, `f` would be an infinite execution
+  by_cases hex : ∃ n, (∀ k < n, ∃ tid lbl, step (f k) tid = some (lbl, f (k + 1))) ∧ enabled (f n) = []
+  · obtain ⟨n, hpre, hdead⟩ := hex
+    have hreach : ∀ k ≤ n, Reachable (init p [.client g b]) (f k) := by
+      intro k
+      induction k with
+      | zero => intro _; rw [h0]; exact .init
+      | succ k ih =>
+        intro hk
+        obtain ⟨tid, lbl, hs⟩ := hpre k (by omega)
+        exact .step (ih (by omega)) hs
+    exact ⟨n, hreach n (Nat.le_refl n), hdead⟩
+  · exfalso
+    have hall : ∀ n, (∀ k < n, ∃ tid lbl, step (f k) tid = some (lbl, f (k + 1))) ∧ enabled (f n) ≠ [] := by
+      intro n
+      induction n with
+      | zero =>
+        refine ⟨fun k hk => absurd hk (Nat.not_lt_zero k), fun hd => hex ⟨0, fun k hk => absurd hk (Nat.not_lt_zero k), hd⟩⟩
+      | succ n ih =>
+        have hstep : ∀ k < n + 1, ∃ tid lbl, step (f k) tid = some (lbl, f (k + 1)) := by
+          intro k hk
+          rcases Nat.lt_succ_iff_lt_or_eq.mp hk with h | h
+          · exact ih.1 k h
+          · subst h; exact hmax k ih.2
+        exact ⟨hstep, fun hd => hex ⟨n + 1, hstep, hd⟩⟩
+    have hrun : IsRun f := fun n => hmax n (hall n).2
+    exact C15_terminates (f := f) (by rw [h0]; exact .init) hrun
+
+/-- **Every schedule delivers the generator faithfully** (liveness + safety in one statement, the FULL
+`C15_faithful` of the property text): under every scheduler the execution is finite, and at its end the
+client's loop has ended having yielded exactly the generator's elements — in order, each once — on the end
+marker carrying exactly its return value. -/
+theorem C15_faithful_run {xs : List Nat} (hsrc : g.src = xs.map Item.val) {f : Nat → Cfg}
+    (h0 : f 0 = init p [.client g b])
+    (hmax : ∀ n, enabled (f n) ≠ [] → ∃ tid lbl, step (f n) tid = some (lbl, f (n + 1))) :
+    ∃ n, enabled (f n) = [] ∧
+      ∃ tc, (f n).ths[1]? = some tc ∧ tc.pc = .done ∧ valuesOf tc.yielded = xs ∧
+        tc.outcome = some (.stop [g.ret]) := by
+  obtain ⟨n, hr, hdead⟩ := C15_run_ends h0 hmax
+  obtain ⟨tc, h1, h2, h3, h4, -⟩ := C15_faithful hsrc hr hdead
+  exact ⟨n, hdead, tc, h1, h2, h3, h4⟩
+
+/-- **Every schedule delivers a generator failure after the elements produced before it** (the FULL
+`C15_failure`): under every scheduler the execution is finite, and at its end the client's loop has ended
+having yielded exactly the values before the failing `next` and raised that exception. -/
+theorem C15_failure_run {xs : List Nat} {rest : List Item} (hsrc : g.src = xs.map Item.val ++ Item.fail :: rest)
+    {f : Nat → Cfg} (h0 : f 0 = init p [.client g b])
+    (hmax : ∀ n, enabled (f n) ≠ [] → ∃ tid lbl, step (f n) tid = some (lbl, f (n + 1))) :
+    ∃ n, enabled (f n) = [] ∧
+      ∃ tc, (f n).ths[1]? = some tc ∧ tc.pc = .done ∧ valuesOf tc.yielded = xs ∧
+        tc.outcome = some (.err .value) := by
+  obtain ⟨n, hr, hdead⟩ := C15_run_ends h0 hmax
+  obtain ⟨tc, h1, h2, h3, h4⟩ := C15_failure hsrc hr hdead
+  exact ⟨n, hdead, tc, h1, h2, h3, h4⟩
+
 /-! ### Non-vacuity of the one-client theorems (tests of the definitions)
 
 A schedule taken from a run of the real code (prefetch 1, batch 1 / 2), replayed on the model. -/
@@ -138,6 +308,53 @@ example : ∃ c, Reachable (init 1 [.client ⟨[.val 7, .fail], 900⟩ 2]) c ∧
     obs c 1 = some (true, [7], some (.err .value)) :=
   ⟨_, reachable_replay (init 1 [.client ⟨[.val 7, .fail], 900⟩ 2]) schedFail (by decide), by decide⟩
 
+/-- the hypotheses of `C15_no_deadlock` / `C15_faithful` are met: after that schedule no thread is enabled
+(the server thread is parked in `run_until_shutdown`), and the client has ended as the theorem says -/
+example : ∃ c, Reachable (init 1 [.client ⟨[.val 7], 900⟩ 1]) c ∧ enabled c = [] ∧
+    c.ths.map (·.pc) = [.mnWake, .done, .done] ∧ obs c 1 = some (true, [7], some (.stop [900])) :=
+  ⟨_, reachable_replay (init 1 [.client ⟨[.val 7], 900⟩ 1]) schedOk (by decide), by decide, by decide, by decide⟩
+
+/-- … and for the failing generator -/
+example : ∃ c, Reachable (init 1 [.client ⟨[.val 7, .fail], 900⟩ 2]) c ∧ enabled c = [] ∧
+    obs c 1 = some (true, [7], some (.err .value)) :=
+  ⟨_, reachable_replay (init 1 [.client ⟨[.val 7, .fail], 900⟩ 2]) schedFail (by decide), by decide, by decide⟩
+
+/-- a reachable configuration in which the client is parked inside `get_batch` (`bWake`, the prefetch thread
+has not run yet): `C15_progress` applies — a thread is enabled (the prefetch thread and the server thread) -/
+example : ∃ c, Reachable (init 1 [.client ⟨[.val 7], 900⟩ 1]) c ∧
+    c.ths.map (·.qt.pc) = [.done, .bWake, .sAcq] ∧ enabled c = [0, 2] :=
+  ⟨_, reachable_replay (init 1 [.client ⟨[.val 7], 900⟩ 1]) (List.replicate 13 1) (by decide), by decide, by decide⟩
+
+/-- a scheduler (always the enabled thread with the smallest id), to show that the hypotheses of
+`C15_run_ends` / `C15_faithful_run` / `C15_failure_run` are satisfiable for every `p`, `g`, `b` -/
+def firstFit (c : Cfg) : Cfg :=
+  match enabled c with
+  | [] => c
+  | tid :: _ => match step c tid with | some (_, c') => c' | none => c
+
+def runFF (c0 : Cfg) : Nat → Cfg
+  | 0 => c0
+  | n + 1 => firstFit (runFF c0 n)
+
+example (c0 : Cfg) : runFF c0 0 = c0 ∧
+    ∀ n, enabled (runFF c0 n) ≠ [] → ∃ tid lbl, step (runFF c0 n) tid = some (lbl, runFF c0 (n + 1)) := by
+  refine ⟨rfl, fun n hne => ?_⟩
+  show ∃ tid lbl, step (runFF c0 n) tid = some (lbl, firstFit (runFF c0 n))
+  generalize runFF c0 n = c at hne ⊢
+  unfold firstFit
+  cases he : enabled c with
+  | nil => exact absurd he hne
+  | cons tid rest =>
+    have hm : tid ∈ enabled c := by rw [he]; exact List.mem_cons_self
+    unfold enabled at hm
+    rw [List.mem_filter] at hm
+    cases hs : step c tid with
+    | none => rw [hs] at hm; simp at hm
+    | some r =>
+      obtain ⟨lbl, c'⟩ := r
+      refine ⟨tid, lbl, ?_⟩
+      simp only [hs]
+
 /-! ### Re-initialisation, stop and shutdown with arbitrary concurrent requests -/
 
 /-
@@ -153,7 +370,8 @@ request parked on the old queue (`C15_reinit_stop_wakes`).  Not proved in Lean: 
 whose stop is skipped because it is already `exhausted` has a prefetch thread past its last `put`
 (it is inside `_stop_enqueue`), and "no handler stays blocked for ever" (liveness).  Both are decided on
 the real code by the scheduler-driven oracle (any thread left blocked is reported with its schedule)
-and on the model by exhaustive exploration of small configurations.
+and on the model by exhaustive exploration of small configurations.  (For the configuration with ONE client
+"no request stays blocked for ever" is a theorem: `C15_no_deadlock`, `C15_terminates` above.)
 -/
 
 /-- **No mixing** (every schedule, any number of concurrent clients and init / next / stop / shutdown
